@@ -6,6 +6,7 @@ import (
 	"errors"
 	"fmt"
 	"runtime"
+	"strings"
 	"sync"
 	"sync/atomic"
 	"testing"
@@ -45,6 +46,13 @@ func genC06Reconnect(t *rapid.T) *c06Reconnect {
 	}
 	if sc.From == "racer" {
 		sc.Racers = rapid.IntRange(1, 3).Draw(t, "racers")
+	}
+	if rapid.IntRange(0, 3).Draw(t, "big_backlog") == 0 {
+		// more unprocessed lines than the client's queue and read buffer hold between them
+		sc.Backlog = rapid.IntRange(70, 300).Draw(t, "backlog_big")
+		if sc.SlowUS > 100 {
+			sc.SlowUS = 100
+		}
 	}
 	for k := rapid.IntRange(1, 3).Draw(t, "connections_ended"); k > 0; k-- {
 		sc.Endings = append(sc.Endings, rapid.SampledFrom([]string{"close", "eof", "readerr", "writeerr", "cancel"}).Draw(t, "ending"))
@@ -162,9 +170,12 @@ func runC06Reconnect(sc *c06Reconnect) *Violation {
 				}()
 			}
 		}
+		// (one write by the server: the lines reach the client's read buffer together)
+		var burst strings.Builder
 		for i := 0; i < sc.Backlog; i++ {
-			conn.SendLine(fmt.Sprintf(":a!b@c PRIVMSG me :%d", i))
+			burst.WriteString(fmt.Sprintf(":a!b@c PRIVMSG me :%d\r\n", i))
 		}
+		conn.Send(burst.String())
 		closed := make(chan struct{})
 		switch ending {
 		case "close":
